@@ -88,15 +88,35 @@ structure Filt (α : Type) where
   num : Terms α
   den : Terms α
 
-/-- `LinearFilter.__init__(b, a)`; `none` = ValueError (denominator without any term). -/
-def mkFilter [DecidableEq α] (b a : List α) : Option (Filt α) :=
-  let num := polyFrom 0 b
-  let den := polyFrom 0 a
+/-- `Poly(dict)`: the entries in insertion order, those equal to zero are not stored -/
+def compact [DecidableEq α] (ts : Terms α) : Terms α := ts.filter fun t => !(decide (t.2 = 0))
+
+/-- second half of `LinearFilter.__init__`: the denominator's lowest power is moved to 0;
+    `none` = ValueError (`min()` of no denominator term). -/
+def finishFilter (num den : Terms α) : Option (Filt α) :=
   match minKey den with
   | none => none
   | some power =>
     if power ≠ 0 then some ⟨shiftTerms power num, shiftTerms power den⟩
     else some ⟨num, den⟩
+
+/-- `LinearFilter.__init__(b, a)` for coefficient lists -/
+def mkFilter [DecidableEq α] (b a : List α) : Option (Filt α) :=
+  finishFilter (polyFrom 0 b) (polyFrom 0 a)
+
+/-- `LinearFilter.__init__(num, den)` for `{delay: coefficient}` dicts (delays may be negative,
+    any insertion order; keys are distinct) -/
+def mkFilterTerms [DecidableEq α] (num den : Terms α) : Option (Filt α) :=
+  finishFilter (compact num) (compact den)
+
+/-- `sorted(self._data)` (ascending powers), by insertion -/
+def insertTerm (t : Int × α) : Terms α → Terms α
+  | [] => [t]
+  | u :: us => if t.1 ≤ u.1 then t :: u :: us else u :: insertTerm t us
+
+def sortTerms : Terms α → Terms α
+  | [] => []
+  | t :: ts => insertTerm t (sortTerms ts)
 
 /-- `self[0]` -/
 def coeffAt [DecidableEq α] : Terms α → Int → α
@@ -115,13 +135,13 @@ def evalPoly [DecidableEq α] (ts : Terms α) (w : α) : α :=
   | _ =>
     if w = 0 then coeffAt ts 0                -- evaluation for x = 0
     else if ts.all (fun t => decide (0 ≤ t.1)) then      -- is_polynomial(): Horner-like scheme
-      match ts.reverse with
+      match (sortTerms ts).reverse with      -- terms(sort=True, reverse=True)
       | [] => 0
       | t :: rest =>
         let r := rest.foldl (hornerStep w) t
         r.2 * zpw w r.1
     else                                      -- Laurent: sum(coeff * value ** power)
-      ts.foldl (fun acc t => acc + t.2 * zpw w t.1) 0
+      (sortTerms ts).foldl (fun acc t => acc + t.2 * zpw w t.1) 0     -- terms(): sorted, Laurent
 
 /-- `LinearFilter.freq_response` at the point `w = exp(-1j*freq)`; `none` = nan -/
 def freqResponse [DecidableEq α] (f : Filt α) (w : α) : Option α :=
@@ -137,12 +157,18 @@ inductive Resp (α : Type) where
   | val (v : α)
 deriving DecidableEq, Repr
 
-def respOfFilter [DecidableEq α] (b a : List α) (w : α) : Resp α :=
-  match mkFilter b a with
+def respOfMk [DecidableEq α] (f : Option (Filt α)) (w : α) : Resp α :=
+  match f with
   | none => .valueError
   | some f => match freqResponse f w with
     | none => .nan
     | some v => .val v
+
+def respOfFilter [DecidableEq α] (b a : List α) (w : α) : Resp α := respOfMk (mkFilter b a) w
+
+/-- observable of `ZFilter(num_dict, den_dict).freq_response(freq)` -/
+def respOfTerms [DecidableEq α] (num den : Terms α) (w : α) : Resp α :=
+  respOfMk (mkFilterTerms num den) w
 
 /-- python `x * y` / `x + y` on responses where a float nan is absorbing -/
 def Resp.combine (op : α → α → α) : Resp α → Resp α → Resp α
